@@ -84,6 +84,14 @@ CHECKS = {
             "resolve/type_transform/Rule/Schema/json.dumps.", "3/C16"),
 }
 
+CHECKS["C19"] = ("property-based testing (Hypothesis): deep before/after snapshots of the caller's input (types, contents, container identity); aliasing and mutation probes on mutable defaults (exhaustive product of forms x bases x nested defaults); generated parse histories with the probe replayed on a fresh re-declaration / fresh interpreter",
+            "hypothesis",
+            "Exploration: (a) generated types/data classes/functions over all entry points with inputs holding nested mutable containers under exclude/preserve, lax and "
+            "cast_keyword_str options, deep snapshot compared after success and failure; (b) 7 declaration forms x 3 bases x 13 nested mutable defaults enumerated completely: "
+            "no shared object, no propagation of in-place mutation to later results or to the declared default; (c) generated histories of up to 8 parses on a shared program "
+            "with forward references, unions and a decorated function, probe outcome compared with a fresh re-declaration.",
+            "Trusted: vf/checks/c19.py:snapshot; vf/oracle.py:equal/plain; aliasing between result and input is by design not a failure.", "3/C19")
+
 NOT_YET = "check not built yet in this round (planned, see DESIGN.md section 3)"
 
 
